@@ -385,3 +385,34 @@ def resolve_future(f, value):
 def reject_future(f, exc):
     if not f.called:
         f.errback(exc)
+
+
+def cancel_future(f):
+    f.cancel()
+
+
+class Watch:
+    """Observes a Deferred from the moment the API returned it: first result wins, failures are
+    consumed (no 'Unhandled error in Deferred' noise), later chaining by the library cannot hide it."""
+
+    def __init__(self, d):
+        self.d = d
+        self.st = ("pending",)
+        self.fired = 0
+        if isinstance(d, defer.Deferred):
+            d.addBoth(self._fire)
+        else:
+            self.st = ("value", d)
+
+    def _fire(self, r):
+        self.fired += 1
+        if self.fired == 1:
+            self.st = ("err", r.value) if isinstance(r, failure.Failure) else ("ok", r)
+        return None
+
+    def state(self):
+        return self.st
+
+
+def watch(f):
+    return Watch(f)
